@@ -229,6 +229,13 @@ def gridded(rep, r, n, lines, exps, metas):
             rep.violation('gridded-nonfinite' + (':single-row-or-column' if min(len(gx), len(gy)) == 1 else ''),
                           f'GriddedPSFModel ({layout} grid) evaluates to non-finite values at ({x0}, {y0})', replay)
             continue
+        # (S) the ePSF indices returned for the bounding points are the ePSFs stored AT those grid points
+        bx0, bx1, by0, by1 = [float(t_) for t_ in np.ravel(gxy)]           # grid_xy = (x0, x1, y0, y1); indices = (ll, lr, ul, ur)
+        corners = [(bx0, by0), (bx1, by0), (bx0, by1), (bx1, by1)]
+        wrong = [(int(gi), p_) for gi, p_ in zip(np.ravel(gidx), corners) if tuple(float(t_) for t_ in pos[int(gi)]) != p_]
+        if wrong:
+            rep.violation(f'gridded-wrong-epsf-index:{layout}', f'bounding point {wrong[0][1]} is mapped to ePSF #{wrong[0][0]}, which is stored at {pos[wrong[0][0]]}', replay)
+            continue
         # (S) value = bilinear blend of the four bounding ePSFs evaluated at the same offsets (each via a 1-node reference)
         ref = np.zeros_like(v)
         from scipy.interpolate import RectBivariateSpline
